@@ -35,6 +35,7 @@ Failure signatures (site independent where the code is shared):
 Every run also executes a fixed list of minimal cases (`pinned_cases`, `pinned_general_cases`), one
 per defect found so far, so that open findings are re-observed on the same input on every seed.
 """
+import json
 import math
 import random
 import time
@@ -787,7 +788,24 @@ def _judge(case, frame, index, reports, problems, faces, failures, hist, cells_i
                 bump(hist, 'split:pieces_differ_from_components:' + site)
 
 
+def _case_fp(case):
+    """Fingerprint of the failing input (face loops, cuts, placement).  Symptom-only classes
+    carry it in their signature, so that a listed finding covers exactly its recorded input
+    and any other input with the same symptom is reported."""
+    import hashlib
+    key = json.dumps({k: case.get(k) for k in ('A', 'cuts', 'frame')}, sort_keys=True,
+                     default=str)
+    return hashlib.sha1(key.encode()).hexdigest()[:8]
+
+
 def classify_split(case, e, rp, info, none=False):
+    kind, sig, extra = _classify_split(case, e, rp, info, none)
+    if kind in ('not-split', 'hole-dropped', 'piece-lost', 'overlap', 'wrong-region'):
+        sig = '%s#%s' % (sig, _case_fp(case))
+    return (kind, sig, extra)
+
+
+def _classify_split(case, e, rp, info, none=False):
     """Signature of a split failure: the configuration when it is a known trigger (cut collinear
     with an edge, cutting segment ending inside the face), otherwise the symptom.  Site and
     mode independent: split_with_line / lines / polyline share the graph code."""
